@@ -340,6 +340,82 @@ theorem fvb_sizes (t o : VB) (s n : Nat) (h : t.size < kMax) (hp : 0 < t.size) :
   unfold FVB.incrSize FVB.decrSize FVB.setSize FVB.swap_impl FVB.move_assign FVB.move_construct
   refine ⟨?_, ?_, rfl, rfl, rfl, rfl, rfl, rfl, rfl⟩ <;> dsimp only <;> omega
 
+
+/- ------------------------------------------------------------------------------------------------------------
+   effect lists of the buffer hand-over paths (allocator protocol: every block goes back with the capacity word
+   it was obtained with; stealing performs no element operation)
+   ------------------------------------------------------------------------------------------------------------ -/
+
+/-- move assignment from a heap-backed source: the target's elements are destroyed, its own block (if any) is
+    returned with its true capacity, and the source's block is adopted without touching an element -/
+theorem moveAssign_steal_effs (N : Nat) (hN : N < kMax) (hN0 : 0 < N) (t o : VB) (ht : SRep N kMax t) (ho : SRep N kMax o)
+    (hoL : SVB.isSmall o = false) :
+    (SVB.move_assign t o N).2.2 = (if SVB.isSmall t then [Eff.destroyN (PtrV.inl 0) (SVB.size t), Eff.setDyn 0]
+      else [Eff.destroyN t.dyn (SVB.size t), Eff.dealloc t.dyn (SVB.capacity t), Eff.setDyn 0]) := by
+  unfold SVB.move_assign
+  repeat' split
+  all_goals
+    dsimp only
+    unfold SRep at ht ho
+    rcases ht with ⟨ht1, ht2⟩ | ⟨ht1, ht2⟩ | ⟨ht1, ht2⟩ <;> rcases ho with ⟨ho1, ho2⟩ | ⟨ho1, ho2⟩ | ⟨ho1, ho2⟩
+    all_goals leaf_auto
+
+/-- move assignment of an inline source into a heap-backed target whose buffer is too small: the buffer is released
+    with its true capacity before the elements are moved into the inline storage -/
+theorem moveAssign_release_effs (N : Nat) (hN : N < kMax) (hN0 : 0 < N) (t o : VB) (ht : SRep N kMax t) (ho : SRep N kMax o)
+    (hoS : SVB.isSmall o = true) (htL : SVB.isSmall t = false) (hcap : SVB.capacity t < SVB.size o) :
+    (SVB.move_assign t o N).2.2 = [Eff.destroyN t.dyn (SVB.size t), Eff.dealloc t.dyn (SVB.capacity t),
+      Eff.moveN (PtrV.inl 1) (SVB.size o) (PtrV.inl 0) 0] := by
+  unfold SVB.move_assign
+  repeat' split
+  all_goals
+    dsimp only
+    unfold SRep at ht ho
+    rcases ht with ⟨ht1, ht2⟩ | ⟨ht1, ht2⟩ | ⟨ht1, ht2⟩ <;> rcases ho with ⟨ho1, ho2⟩ | ⟨ho1, ho2⟩ | ⟨ho1, ho2⟩
+    all_goals leaf_auto
+
+/-- shrink_to_fit: back to inline = relocate + return the block with its true capacity; otherwise reallocate with the
+    true old capacity and live-element count; nothing when already tight or inline -/
+theorem shrinkImpl_effs (N : Nat) (hN : N < kMax) (t : VB) (h : SRep N kMax t) (fresh : Nat) :
+    (SVB.isSmall t = true → (SVB.shrink_impl t N fresh).2 = [])
+    ∧ (SVB.isSmall t = false → SVB.size t ≤ N →
+        (SVB.shrink_impl t N fresh).2 = [Eff.relocN t.dyn (SVB.size t) (PtrV.inl 0), Eff.dealloc t.dyn (SVB.capacity t)])
+    ∧ (SVB.isSmall t = false → N < SVB.size t → SVB.size t ≠ SVB.capacity t →
+        (SVB.shrink_impl t N fresh).2 =
+          [Eff.realloc t.dyn (SVB.capacity t) (SVB.size t) (SVB.size t) (PtrV.blk (fresh + 0)), Eff.setDyn 0])
+    ∧ (SVB.isSmall t = false → N < SVB.size t → SVB.size t = SVB.capacity t → (SVB.shrink_impl t N fresh).2 = []) := by
+  unfold SVB.shrink_impl
+  repeat' split
+  all_goals (try dsimp only)
+  all_goals
+    try
+      unfold SRep at h
+      rcases h with ⟨h1, h2⟩ | ⟨h1, h2⟩ | ⟨h1, h2⟩
+      all_goals leaf_auto
+
+/-- move construction and swap of heap-backed operands touch no element and no allocator -/
+theorem steal_effs (N : Nat) (hN : N < kMax) (t o : VB) (ht : SRep N kMax t) (ho : SRep N kMax o)
+    (htL : SVB.isSmall t = false) (hoL : SVB.isSmall o = false) :
+    (SVB.move_construct t o N).2.2 = [Eff.setDyn 0] ∧ (SVB.swap_impl t o).2.2 = [Eff.setDyn 0, Eff.setDyn 1] := by
+  unfold SVB.move_construct SVB.swap_impl
+  constructor
+  all_goals
+    repeat' split
+    all_goals (try dsimp only)
+    all_goals
+      try
+        unfold SRep at ht ho
+        rcases ht with ⟨ht1, ht2⟩ | ⟨ht1, ht2⟩ | ⟨ht1, ht2⟩ <;> rcases ho with ⟨ho1, ho2⟩ | ⟨ho1, ho2⟩ | ⟨ho1, ho2⟩
+        all_goals leaf_auto
+
+/-- amc::vector: growth reallocates with the true old capacity and size; move assignment returns the old block -/
+theorem dvb_effs (t : VB) (minSize fresh r : Nat) (hr : SafeNextCapacity t.capa minSize false = .ok r) :
+    DVB.grow t minSize false fresh = .ok (⟨r, t.size, PtrV.blk (fresh + 0)⟩, [Eff.realloc t.dyn t.capa r t.size (PtrV.blk (fresh + 0))])
+    ∧ (DVB.dtor t).2 = (if t.dyn ≠ PtrV.null then [Eff.dealloc t.dyn t.capa] else []) := by
+  constructor
+  · exact dvb_grow t minSize false fresh r hr
+  · unfold DVB.dtor; split <;> simp_all
+
 /-- the generated SmallVectorBase members of this size type satisfy every word law -/
 theorem svb_laws (N : Nat) (hN : N < kMax) (hN0 : 0 < N) : SmallLaws svbOps N where
   kmax := hN
